@@ -28,3 +28,21 @@ package core
 //@   ensures (result.1 != nil) ==> result.0 == nil
 //@   modifies nothing
 //@   trusted arithmetic contracts pending
+
+//@ func GetStructAttributeValue
+//@   props C03
+//@   ensures result.1 == nil
+//@   modifies nothing
+//@   trusted reflect-based accessors pending
+
+//@ func SetAttributeValue
+//@   props C03
+//@   ensures true
+//@   modifies nothing
+//@   trusted reflect-based accessors pending
+
+//@ func SetSingleValue
+//@   props C03
+//@   ensures true
+//@   modifies nothing
+//@   trusted reflect-based accessors pending
